@@ -163,10 +163,11 @@ pub fn build(n: u32, es: u32, scale: i32, frac_of: impl Fn(u32) -> u32) -> Optio
     let k = scale.div_euclid(useed);
     let e = scale.rem_euclid(useed) as u32;
     let body = n - 1;
-    let (rbits, rl): (u64, u32) = if k >= 0 { ((((1u64 << (k + 1)) - 1) << 1), (k + 2) as u32) } else { (1, (-k + 1) as u32) };
+    let rl: u32 = if k >= 0 { (k + 2) as u32 } else { (-k + 1) as u32 };
     if rl > body {
         return None;
     }
+    let rbits: u64 = if k >= 0 { ((1u64 << (k + 1)) - 1) << 1 } else { 1 };
     let avail = body - rl;
     let ebits = avail.min(es);
     if ebits < es && (e & ((1 << (es - ebits)) - 1)) != 0 {
